@@ -1118,6 +1118,32 @@ func c39MarkerAndKeys(c *core.Ctx) {
 				}
 				return false
 			}
+			// a branch of the removal may be a helper of the contract handed the list: the same demand on its paths
+			baseFixes := fixes
+			fixes = func(in ssa.Instruction) bool {
+				if baseFixes(in) {
+					return true
+				}
+				cc := core.CallOf(in)
+				if cc == nil || cc.StaticCallee() == nil || cc.StaticCallee().Blocks == nil || cc.StaticCallee().Pkg != fn.Pkg || cc.StaticCallee() == fn {
+					return false
+				}
+				handed := false
+				for _, a := range cc.Args {
+					if nt := namedElem(a.Type()); nt != nil && nt.Obj().Name() == "WaitingList" {
+						handed = true
+					}
+				}
+				if !handed {
+					return false
+				}
+				h := cc.StaticCallee()
+				esc, _ := core.PathQ{Fn: h, Via: baseFixes, ViaEdge: notMarker, Target: core.SuccessReturn}.Escape()
+				if esc == nil {
+					c.Analysed(fname(h))
+				}
+				return esc == nil
+			}
 			esc, path := core.PathQ{Fn: fn, From: dec, Via: fixes, ViaEdge: notMarker, Target: core.SuccessReturn}.Escape()
 			c.Check(esc == nil, "C39/last-jailed-marker-follows-removal", "stakingSC.removeFromWaitingList", dec.Pos(),
 				"after the removal every success return lies behind an update of LastJailedKey, the deletion of the head, or the test that the removed key is not the marker",
